@@ -1,6 +1,7 @@
 import PercevalModel.SimProto
 import PercevalModel.Model.C20
 import PercevalModel.Model.C20Conv
+import PercevalModel.Model.C20Post
 import PercevalModel.Lemmas.C20HeraldedCnot
 
 /-!
@@ -25,7 +26,7 @@ import PercevalModel.Lemmas.C20HeraldedCnot
     {"op":"catmat","name":"heralded cz"|"heralded cnot"|"postprocessed cnot"|"postprocessed cz","r":q,"h":q,"c2":q,"s2":q}
         -> {"U":rows}   the model's explicit 6x6 matrix of the gate (`hczMatrix`, `H·hczMatrix·H`, `ppcnotMatrix`,
         `ppczMatrix` — the matrices the exact theorems are about) evaluated at the given rational parameters
-    {"op":"modes","n":n,"fixed":bool,"ups":bool,"gates":[…]}
+    {"op":"modes","n":n,"fixed":bool,"ups":bool,"gates":[…]}   (also: "ps" = planPS, "tracked" = ppTracked, "input", "minPhotons")
         -> {"kinds":[…],"modes":[[…],…],"m":m,"qubits":[…],"heralds":[[mode,val],…],"layoutOk":bool}
 -/
 
@@ -59,6 +60,12 @@ def refOfJson (j : Json) : Except String (String × ℤ) := do
   match (← j.getArr?) with
   | #[n, k] => return (← n.getStr?, ← k.getInt?)
   | _ => throw "bad reference"
+
+def boolOfD (j : Json) (k : String) (d : Bool) : Except String Bool :=
+  match j.getObjVal? k with
+  | .ok (.bool b) => pure b
+  | .ok _ => throw s!"{k}: not a boolean"
+  | .error _ => pure d
 
 def rowsToLists (rows : Array (Array GQ)) : List (List GQ) := rows.toList.map (·.toList)
 
@@ -196,7 +203,11 @@ def handle (j : Json) : Json :=
       if kinds.any (·.startsWith "rejected") then throw "rejected gate"
       let L := convLayout n (planHeralds kinds)
       return Json.mkObj [("kinds", toJson kinds), ("modes", toJson (planModes n gs kinds 0)), ("m", toJson L.m),
-        ("qubits", toJson L.qubits), ("heralds", edgesToJson L.heralds), ("layoutOk", Json.bool L.ok)]
+        ("qubits", toJson L.qubits), ("heralds", edgesToJson L.heralds), ("layoutOk", Json.bool L.ok),
+        -- round 8: the post-selection conditions the converter ends with (`planPS`, repaired SWAP rule unless
+        -- "swapFixed": false), what every post-processed CNOT contributes (`ppTracked`), and the default input state
+        ("ps", toJson (planPS (← boolOfD j "swapFixed" true) gs kinds [])), ("tracked", toJson (ppTracked gs kinds)),
+        ("input", toJson (inputState n (planHeralds kinds))), ("minPhotons", toJson n)]
     | _ => throw "unknown op") with
   | .ok r => r
   | .error e => errJson e
